@@ -3,6 +3,7 @@
 package light
 
 import (
+	tmmath "github.com/tendermint/tendermint/libs/math"
 	"bytes"
 	"context"
 	"errors"
@@ -43,6 +44,15 @@ func vpValSet(idx []int, power int64) *types.ValidatorSet {
 		vals[i] = types.NewValidator(vpKey(k).PubKey(), power)
 	}
 	return &types.ValidatorSet{Validators: vals} // raw: duplicates are possible, as an adversary can send them
+}
+
+// vpValSetPw: as vpValSet with one power per position.
+func vpValSetPw(idx []int, pw []int64) *types.ValidatorSet {
+	vals := make([]*types.Validator, len(idx))
+	for i, k := range idx {
+		vals[i] = types.NewValidator(vpKey(k).PubKey(), pw[i])
+	}
+	return &types.ValidatorSet{Validators: vals}
 }
 
 func vpHeader(chain string, h int64, t time.Time, vals, next *types.ValidatorSet) *types.Header {
@@ -100,10 +110,12 @@ func vpC09Verify(adjacent bool) {
 	period := []time.Duration{100 * time.Second, 300 * time.Second}[vp.Choice("trusting-period", 2)]
 	drift := []time.Duration{0, 10 * time.Second}[vp.Choice("clock-drift", 2)]
 	trustedIdx := []int{0, 1, 2}
-	trustedVals := vpValSet(trustedIdx, 10)
+	// equal powers, or one validator holding half (so that two signers can hold exactly 3/4)
+	pw := [][]int64{{10, 10, 10}, {50, 25, 25}}[vp.Choice("powers", 2)]
+	trustedVals := vpValSetPw(trustedIdx, pw)
 	// the new header's validator set: the same set, or one sharing 1 or 2 members with the trusted one
 	newIdx := [][]int{{0, 1, 2}, {0, 1, 5}, {0, 4, 5}}[vp.Choice("new-validators", 3)]
-	newVals := vpValSet(newIdx, 10)
+	newVals := vpValSetPw(newIdx, pw)
 	hOld := int64(2)
 	hNew := hOld + 1
 	if !adjacent {
@@ -135,15 +147,18 @@ func vpC09Verify(adjacent bool) {
 	}
 	newHeader := vpHeader(chainNew, hdrHeight, time.Unix(tNew, 0).UTC(), valsForHeader, valsForHeader)
 	untrusted := &types.SignedHeader{Header: newHeader, Commit: vpCommitNil(chainNew, newHeader, newVals, newIdx, signers, nils)}
-	err := Verify(trusted, trustedVals, untrusted, newVals, period, time.Unix(now, 0).UTC(), drift, DefaultTrustLevel)
+	// the operator's trust level: the default 1/3, or a stricter one above the 2/3 commit threshold
+	level := []tmmath.Fraction{DefaultTrustLevel, {Numerator: 3, Denominator: 4}}[vp.Choice("trust-level", 2)]
+	err := Verify(trusted, trustedVals, untrusted, newVals, period, time.Unix(now, 0).UTC(), drift, level)
 
 	// ---- reference
-	nSigned, nSignedTrusted := 0, 0
+	var nSigned, nSignedTrusted, total int64 // voting power
 	for i := range signers {
+		total += pw[i]
 		if signers[i] && (nils == nil || !nils[i]) {
-			nSigned++
+			nSigned += pw[i]
 			if newIdx[i] <= 2 {
-				nSignedTrusted++
+				nSignedTrusted += pw[newIdx[i]] // counted with the power the trusted set gives that validator
 			}
 		}
 	}
@@ -151,12 +166,12 @@ func vpC09Verify(adjacent bool) {
 	later := hdrHeight > hOld && tNew > tOld
 	notFuture := tNew < now+int64(drift/time.Second)
 	notExpired := tOld+int64(period/time.Second) > now
-	twoThirds := 3*nSigned > 2*3
+	twoThirds := 3*nSigned > 2*total
 	var link bool
 	if hdrHeight == hOld+1 {
 		link = bytes.Equal(newHeader.ValidatorsHash, oldHeader.NextValidatorsHash)
 	} else {
-		link = 3*nSignedTrusted > 1*3 // strictly more than the trust level (1/3) of the trusted set's power
+		link = nSignedTrusted*int64(level.Denominator) > int64(level.Numerator)*total // strictly more than the trust level of the trusted set's power
 	}
 	want := wellFormed && later && notFuture && notExpired && twoThirds && link
 	if err == nil {
